@@ -123,6 +123,25 @@ _op('argmin', lambda c, a, p: list(c.rt.argmin(a[0])),
     lambda t, a, p: [a[0].index(min(a[0])), min(a[0])])
 _op('argmax', lambda c, a, p: list(c.rt.argmax(a[0])),
     lambda t, a, p: [a[0].index(max(a[0])), max(a[0])])
+
+
+def _real_keyed(c, a, p):
+    import operator
+    key = operator.neg
+    rt = c.rt
+    i, v = rt.argmax(a[0], key=key)
+    j, w = rt.argmin(a[0], key=key)
+    return [rt.max(a[0], key=key), rt.min(a[0], key=key), i, v, j, w, rt.sorted(a[0], key=key)]
+
+
+def _ref_keyed(t, a, p):
+    x = a[0]
+    key = lambda v: -v      # noqa: E731
+    mx, mn = max(x, key=key), min(x, key=key)
+    return [mx, mn, x.index(mx), mx, x.index(mn), mn, sorted(x, key=key)]
+
+
+_op('keyed', _real_keyed, _ref_keyed)      # max/min/argmax/argmin/sorted with key=neg (an order unlike the natural one)
 _op('if_else', lambda c, a, p: [a[0].if_else(a[1], a[2])], lambda t, a, p: [a[1] if a[0] else a[2]])
 _op('if_else_rt', lambda c, a, p: [c.rt.if_else(a[0], a[1], a[2])],
     lambda t, a, p: [a[1] if a[0] else a[2]])
@@ -331,6 +350,9 @@ class Gen:
         return self.rng.randint(self.lo, self.hi)
 
     def emit(self, opn, outs, args, p, vals, kinds):
+        if any(isinstance(self.val.get(a), list) and len(self.val[a]) >= 2 for a in args) and opn not in ('getitem', 'mklist') \
+                and self.rng.random() < 0.12:
+            p = dict(p, _mut=True)       # the list argument is scrambled by the caller right after the call
         self.stmts.append([opn, outs, args, p])
         for o, v, k in zip(outs, vals, kinds):
             self.val[o] = v
